@@ -2,7 +2,7 @@
 # usage: try_refactor.sh NN "C15 C04"  - apply a behaviour-preserving refactoring to a scratch worktree and run checks: all must exit 0
 nn="$1"; checks="$2"; wt="/tmp/refac_try_$nn"
 git -C /repo worktree remove --force "$wt" >/dev/null 2>&1
-git -C /repo worktree add --detach "$wt" HEAD >/dev/null 2>&1
+git -C /repo worktree add --detach "$wt" "${REFAC_BASE:-HEAD}" >/dev/null 2>&1
 if ! git -C "$wt" apply "/verif/seeded/refactors/$nn/patch.diff"; then echo "refactor $nn: PATCH DOES NOT APPLY"; git -C /repo worktree remove --force "$wt"; exit 2; fi
 for c in $checks; do
   (cd /verif && VERIF_REPO="$wt" ./check "$c" --tier quick >/tmp/refac_try_$nn.$c.log 2>&1; echo "refactor $nn check $c exit=$? $(grep 'quick:' /tmp/refac_try_$nn.$c.log | tail -1)"; grep VIOLATION /tmp/refac_try_$nn.$c.log | head -3)
